@@ -3,6 +3,7 @@
 
 mod common;
 mod refcheck;
+mod replay;
 mod c01;
 mod c02;
 mod c03;
@@ -32,6 +33,7 @@ fn main() {
     install_quiet_panic_hook();
     match argv[0].as_str() {
         "refcheck" => refcheck::run(&args),
+        "replay" => replay::run(&args),
         "c01" => c01::run(&args),
         "c02" => c02::run(&args),
         "c03" => c03::run(&args),
